@@ -1153,8 +1153,8 @@ def parts(tier):
         rs_req["factory:" + f] = 300 if q else 5000
     rs_req.update({"relativize:True": 300 if q else 5000, "relativize:False": 300 if q else 5000})
     return [
-        Part("roundtrip", run_roundtrip, strategy=roundtrip_cases(), n={"quick": 800, "thorough": 10000}, require=rt_req,
+        Part("roundtrip", run_roundtrip, strategy=roundtrip_cases(), n={"quick": 800, "thorough": 40000}, require=rt_req,
              shards={"quick": 8, "thorough": 16}),
-        Part("respell", run_respell, strategy=respell_cases(), n={"quick": 800, "thorough": 10000}, require=rs_req,
+        Part("respell", run_respell, strategy=respell_cases(), n={"quick": 800, "thorough": 40000}, require=rs_req,
              shards={"quick": 8, "thorough": 16}),
     ]
